@@ -118,6 +118,9 @@ class MultiCrossBlockRepeat(Block):
         if mode != RepeatMode.REPEAT:
             num_trials = self.trials_per_sample()
             for i in range(0, len(crossings)):
+                if self.crossing_sizes[i] == 0:
+                    # Every combination is excluded or impossible, so there is nothing to weight
+                    continue
                 w = ((num_trials // crossing_sustain_counts[i]) - self.preamble_sizes[i] + self.crossing_sizes[i] - 1) // self.crossing_sizes[i]
                 if w != self.crossing_weights[i]:
                     if mode == RepeatMode.EQUAL:
